@@ -3,6 +3,7 @@
 From Coq Require Import ZArith List.
 From mathcomp Require Import all_ssreflect all_algebra.
 From SV Require Import Names Rep Complex Homology ListMat SnfCount Rank Betti EulerP Gen RepInv Shapes Incidence Closed ClosedReach Components Betti0 RelabelAll.
+From SV Require VInv SameFamily RankPerm SameBetti.
 Import ListNotations.
 
 (* the elimination of _reduceBoundaries, on every 0/1 matrix of every shape, ends in the partial
@@ -87,3 +88,25 @@ Theorem C06_independent_of_names :
   forall phi r r', renamed_by phi r r' -> forall ks, bettiNumbers r' ks = bettiNumbers r ks.
 Proof. intros phi r r' H. exact (proj1 (proj2 (proj2 (renamed_homology phi r r' H)))). Qed.
 Print Assumptions C06_independent_of_names.
+
+(* "THE RESULT DEPENDS ONLY ON THE FAMILY OF VERTEX SETS": two complexes that meet the vertex-set reading (every
+   in-contract history, copies, snapshots, flag and Vietoris-Rips results) and carry simplices on the same sets of
+   points -- whatever the simplex names, the order of insertion, the deletions on the way -- have the same Betti
+   numbers: equally many simplices per order, and boundary operators that differ by a re-indexing of rows and
+   columns, under which Mathematical Components' \rank over 'F_2 is invariant *)
+Theorem C06_depends_only_on_the_family_of_vertex_sets :
+  forall r1 r2 k, VInv.vinv r1 -> VInv.vinv r2 -> SameFamily.same_family r1 r2 -> betti1 r1 k = betti1 r2 k.
+Proof. exact SameBetti.same_betti. Qed.
+Print Assumptions C06_depends_only_on_the_family_of_vertex_sets.
+Theorem C06_a_copy_has_the_betti_numbers_of_its_source :
+  forall hp src uid hp' c k, VInv.vinv src -> copy_new hp (view_of src) uid = (hp', c, Ok tt) -> betti1 c k = betti1 src k.
+Proof. exact SameBetti.copy_same_betti. Qed.
+Print Assumptions C06_a_copy_has_the_betti_numbers_of_its_source.
+Theorem C06_rank_invariant_under_reindexing :
+  forall m n (f g : nat -> nat -> bool) (sg tau : nat -> nat),
+  (forall i, (i < m)%N -> (sg i < m)%N) -> (forall i i', (i < m)%N -> (i' < m)%N -> sg i = sg i' -> i = i') ->
+  (forall j, (j < n)%N -> (tau j < n)%N) -> (forall j j', (j < n)%N -> (j' < n)%N -> tau j = tau j' -> j = j') ->
+  (forall i j, (i < m)%N -> (j < n)%N -> f i j = g (sg i) (tau j)) ->
+  \rank (Rank.mxf m n f) = \rank (Rank.mxf m n g).
+Proof. exact RankPerm.rank_reindex. Qed.
+Print Assumptions C06_rank_invariant_under_reindexing.
